@@ -207,9 +207,11 @@ def std_stages(tier, seed, battery, closed=("split", "long"), kinds_random=None,
     size = "q" if q else "t"
     st = []
     mk = model_kinds or (["alpha/string"] if q else ["alpha/string", "alpha/bytes"])
+    st.append(Stage("model", "alpha/string", "lfan", size, battery))
     for u in closed:
         for k in mk:
-            st.append(Stage("model", k, u, size, battery))
+            # thorough closures have up to 2^13 states x ~40 operations: replay a seeded sample of 120 000 transitions per stage
+            st.append(Stage("model", k, u, size, battery, cap=(None if q else 120000)))
     # numeric kinds: closed universes of fixed-width patterns (shape differs per encoding)
     nk = ["uint32", "int16", "float64"] if q else ["uint8", "uint16", "uint32", "uint64", "int8", "int16", "int32", "int64", "float32", "float64"]
     for k in nk:
@@ -277,7 +279,7 @@ def coll_stages(tier, battery, n=None, ln=None):
         st.append(Stage("random", k, "text", "q" if q else "t", battery, n=n or (3 if q else 12), len=ln or (60 if q else 150),
                         batevery=(3 if q else 2)))
     # a fan of > 16 children in the sort-key space (48-slot class in the hand-written copy)
-    st.append(Stage("sim", "collation/string/und", "han", "q", battery, num=(2 if q else 8), depth=(220 if q else 440), ramp=True,
+    st.append(Stage("sim", "collation/string/und", "han", "q", battery, num=(2 if q else 8), depth=(260 if q else 520), ramp=True,
                     invs=["SizeOK", "AllOK", "WFOK"], every=False, batevery=3))
     st.append(Stage("random", "collation/bytes/und", "han", "q", battery, n=(2 if q else 10), len=(120 if q else 200), batevery=3))
     return st
@@ -286,6 +288,8 @@ def coll_stages(tier, battery, n=None, ln=None):
 def comp_stages(tier, seed, battery, n=None, ln=None):
     q = tier == "quick"
     st = []
+    # tuples sharing a 16-byte encoded path, absent tuples differing only inside its non-inlined part
+    st.append(Stage("model", "compound/u64+u64+u8", "tuplelong", "q", battery))
     # a 256-way root in a compound tree (first field int8/uint8: 0xFF and 0x00 branches included)
     for s in (["compound/i8+u16"] if q else ["compound/i8+u16", "compound/u8+str", "compound/u8+f32"]):
         st.append(Stage("sim", s, "tuplefan", "q", battery, num=(1 if q else 4), depth=(480 if q else 1000), ramp=True,
@@ -392,6 +396,9 @@ def check_C14(work, prop, tier, seed, t0):
     bat = "iterchk=%d" % (6 if q else 12)
     extra = coll_stages(tier, bat) + comp_stages(tier, seed, bat)
     stages = std_stages(tier, seed, bat, extra=extra, closed=("split", "range"))
+    # sequences whose bounds / prefix live in buffers the caller reuses between creation, passes and lookups
+    stages.append(Stage("arena", "alpha/bytes", "range", "q", bat, n=(3 if q else 10), len=(40 if q else 90)))
+    stages.append(Stage("arena", "collation/bytes/und", "text", "q", bat, n=(2 if q else 8), len=(40 if q else 90)))
     return tree_check(work, prop, tier, seed, t0, stages, PROP_INVS[prop], ["ReiterOK", "TopBottomOK"], RULE_TREE, model_props=[])
 
 
